@@ -302,3 +302,28 @@ func init() {
 			Opts: vrt.Options{Delay: delay}, Run: psLastLeaves, Check: pubsubCheck})
 	}
 }
+
+// S-sub-cancelled: SubscribeContext with an already cancelled context (iterator never run) is
+// called WHILE a Send to a standing subscriber is in flight.
+func psSubCancelled() {
+	e := newPsEnv()
+	ctx, cancel := context.WithCancel(context.Background())
+	vrt.Log("unsubcall", 1)
+	cancel()
+	b := make(chan struct{})
+	e.uwg.Add(1)
+	go e.manualSub(2, 1, e.quit, b)
+	<-b
+	e.swg.Add(1)
+	go e.sender(1)
+	vrt.Log("subcall", 1)
+	_ = e.ps.SubscribeContext(ctx)
+	vrt.Log("sub", 1)
+	e.finish(psCancel{1, cancel})
+}
+
+func init() {
+	vrt.Register(&vrt.Scenario{Name: "S-sub-cancelled", Props: []string{"C06:deliver-", "C07", "C11:race", "C12:goroutine-leak"},
+		Quick: 2, Thorough: 3, Desc: "SubscribeContext with an already cancelled context, called while a Send to a standing subscriber is in flight",
+		Run: psSubCancelled, Check: pubsubCheck})
+}
